@@ -210,6 +210,12 @@ def cases(tier):
     for attr in ATTR_NAMES:
         for mapping in (0, 1):
             yield {'attr': attr, 'mapping': mapping}
+    for n in (26, 27, 39, 40, 41, 50, 90, 100, 400, 1000, 3999):
+        for opt, pre in (('', 'sequence-'), (' prefix=p', 'p_'),
+                         (' reverse', 'sequence-'),
+                         (' size=%d start=1' % n, 'sequence-')):
+            for cont in ('list', 'iter'):
+                yield {'long': n, 'opt': opt, 'pre': pre, 'cont': cont}
     for cont in CONTAINERS:
         for na in range(0, 4):
             for nb in range(0, 4):
@@ -464,6 +470,64 @@ def run_nested(case):
     return res
 
 
+LONG_SRC = ('<dtml-in seq%s>[<dtml-var %sindex>,<dtml-var %snumber>,'
+            '<dtml-var %sroman>,<dtml-var %sRoman>,<dtml-var %sletter>,'
+            '<dtml-var %sLetter>,<dtml-var %sitem>,<dtml-if %seven>e'
+            '</dtml-if><dtml-if %sodd>o</dtml-if><dtml-if %sstart>S'
+            '</dtml-if><dtml-if %send>E</dtml-if>,<dtml-var %slength>]'
+            '</dtml-in>')
+
+
+def run_long(case):
+    """scale: sequences far longer than the exhaustive domain -- the
+    positional variables are functions of the position for every position
+    (roman numerals with XL, XC, CD, ...; letters up to z)"""
+    from DocumentTemplate import HTML
+    res = Res(nontrivial=True)
+    n, opt, pre = case['long'], case['opt'], case['pre']
+    t = HTML(LONG_SRC % ((opt,) + (pre,) * 12))
+    items = [1000 + i for i in range(n)]
+    rows = []
+    shown = list(range(n))
+    if 'reverse' in opt:
+        shown = shown[::-1]
+    for pos, i in enumerate(shown):
+        rows.append([pos, pos + 1, to_roman(pos + 1).lower(),
+                     to_roman(pos + 1),
+                     chr(ord('a') + pos) if pos < 26 else None,
+                     chr(ord('A') + pos) if pos < 26 else None,
+                     items[i], ('e' if pos % 2 == 0 else 'o') +
+                     ('S' if pos == 0 else '') + ('E' if pos == n - 1 else ''),
+                     n])
+    try:
+        got = t(seq=container(case['cont'], items))
+    except Exception as e:
+        got = repr(e)
+    cells = [c.split(',') for c in got[1:-1].split('][')] if n and \
+        got.startswith('[') else []
+    bad = None
+    if len(cells) != len(rows):
+        bad = {'rows': len(cells), 'expected_rows': len(rows)}
+    else:
+        for r, c in zip(rows, cells):
+            for k, (want, have) in enumerate(zip(r, c)):
+                if want is not None and str(want) != have:
+                    bad = {'position': r[1], 'column': k, 'got': have,
+                           'expected': str(want)}
+                    break
+            if bad:
+                break
+    if bad:
+        bad['got_text'] = got[:200]
+        res.violate('long-sequence', 'long:%s' % (
+            'rows' if 'rows' in bad else
+            ('index', 'number', 'roman', 'Roman', 'letter', 'Letter', 'item',
+             'flags', 'length')[bad['column']]), bad, case)
+    res.evals = n
+    res.outcome = 'long'
+    return res
+
+
 ATTR_NAMES = ('number', 'key', 'item', 'value', 'length', 'letter', 'even',
               'odd', 'first', 'last', 'items', 'data', 'index', 'start',
               'end', 'roman', 'x_y', 'var')
@@ -516,6 +580,8 @@ def run(case):
         return run_attrname(case)
     if 'nested' in case:
         return run_nested(case)
+    if 'long' in case:
+        return run_long(case)
     if 'xs' in case:
         one(res, case, case['xs'])
         res.nontrivial = True
